@@ -1403,6 +1403,51 @@ hash_key_harness!(u49_hash_key_uniform_len32, 32);
 hash_key_harness!(u49_hash_key_uniform_len33, 33);
 hash_key_harness!(u49_hash_key_uniform_len40, 40);
 
+// the current key format hashes the WHOLE key (SipHash 1-3 keyed by the salt): two keys that agree on their first 32 bytes
+// and differ behind them must not be forced onto the same internal key. SipHasher13::write is replaced by a recorder that
+// checks it is handed the key bytes, all of them, in order.
+pub(crate) static mut HK_FED: usize = 0;
+pub(crate) static mut HK_FED_OK: bool = true;
+pub(crate) static mut HK_KEY: [u8; 40] = [0; 40];
+pub(crate) fn stub_sip_write(_h: &mut siphasher::sip128::SipHasher13, msg: &[u8]) {
+	unsafe {
+		let mut i = 0;
+		while i < msg.len() {
+			if HK_FED + i >= 40 || msg[i] != HK_KEY[HK_FED + i] {
+				HK_FED_OK = false;
+			}
+			i += 1;
+		}
+		HK_FED += msg.len();
+	}
+}
+macro_rules! hash_key_whole_harness {
+	($name:ident, $len:expr) => {
+		#[kani::proof]
+		#[kani::unwind(42)]
+		#[kani::stub(<siphasher::sip128::SipHasher13 as std::hash::Hasher>::write, stub_sip_write)]
+		fn $name() {
+			let key: [u8; $len] = kani::any();
+			let salt: Salt = kani::any();
+			unsafe {
+				HK_FED = 0;
+				HK_FED_OK = true;
+				HK_KEY = [0; 40];
+				let mut i = 0;
+				while i < $len {
+					HK_KEY[i] = key[i];
+					i += 1;
+				}
+			}
+			let _k = hash_key(&key, &salt, true, crate::options::CURRENT_VERSION);
+			assert!(unsafe { HK_FED } == $len && unsafe { HK_FED_OK }, "U49.hash_key.current_format_hashes_the_whole_key");
+			kani::cover!(true, "reached");
+		}
+	};
+}
+hash_key_whole_harness!(u49_hash_key_hashes_whole_key_len33, 33);
+hash_key_whole_harness!(u49_hash_key_hashes_whole_key_len40, 40);
+
 // ================================================================== U53: validation of an index record never grows the index beyond what the log overlay can hold
 // HashColumn::validate_plan re-launches an index growth when a record names a larger index than the current one (the growth had
 // been triggered in the previous session). The table id is one byte taken from the log before the record's checksum is
